@@ -42,6 +42,7 @@ ON_UNCHANGED_TREE = {
     "get_location:unstranded:stop:wrong-position",
     "GenomicSequence[intervals]:stranded:no-entries:exception:ValueError",
     "GenomicSequence[intervals]:stranded:all-intervals-length-1:exception:AttributeError",
+    "history:extended_to_size:result-not-stranded",
 }
 
 
@@ -1431,7 +1432,7 @@ def many_cases(tier):
     rule = [2, 7, 5]                 # sizes 2..6; contigs k, k-256 and k-65536 always have different sizes
     configs = [(257, 0, "keep"), (300, 0, "keep"), (520, 0, "keep"), (300, 64, "ign"), (300, 64, "keep")]
     if thorough:
-        configs += [(256, 0, "keep"), (258, 0, "keep"), (777, 0, "keep"), (1030, 0, "keep"), (520, 100, "ign"), (600, 3, "ign")]
+        configs += [(256, 0, "keep"), (258, 0, "keep"), (1030, 0, "keep"), (520, 100, "ign"), (600, 3, "ign")]
     big = [65600] + ([65537, 70000, 131100] if thorough else [])
 
     def trio(i, j, size):
@@ -1466,10 +1467,10 @@ def many_cases(tier):
         yield {**base, "picks": [p for j, i in enumerate(everything) for p in trio(i, j, size(i))], "whole": True}
         if n > 60000:
             continue                 # coordinate conversion only: element-wise, one case with all probes is enough
-        if thorough:
+        if thorough and (n, ue, filt) in configs[:7]:
             singles = sorted(set(high) | set(range(250, min(n, 262))))
-        else:       # the contigs number 255, 256, 512 and the last one (in the order of the genome context)
-            singles = [i for i in high if pos.get(i, i) in (255, 256, 512, len(included) - 1)]
+        else:       # the contigs number 255, 256, 512, 1024 and the last one (in the order of the genome context)
+            singles = [i for i in high if pos.get(i, i) in (255, 256, 512, 1024, len(included) - 1)]
         for i in singles:
             yield {**base, "picks": trio(i, 0, size(i))}
             if i in pos:
@@ -1507,6 +1508,8 @@ def hist_cases(tier, S):
         pats = strand_patterns(k, tier)
         if not thorough and gi_ > 0:
             pats = pats[gi_ % 2:][:1]
+        elif thorough and gi_ > 0:      # alternating and, for the first inputs, one-strand-only patterns
+            pats = [pats[gi_ % 2]] + ([pats[2 + gi_ % 2]] if gi_ <= 5 else [])
         for st in pats:
             for first in firsts:
                 yield {"k": "hist", "genome": genome, "filter": filt, "entries": entries, "strands": st, "shift": list(shift),
@@ -1677,11 +1680,22 @@ def run(tier="quick", seed=0):
                     "or kept) x {all valid positions / intervals at once for element-wise operations; every subset of <=2 intervals per "
                     "chromosome (<=3 for one chromosome) for 1..2 chromosomes; every combination of {none, first base, last base, whole, "
                     "both ends} per chromosome for 3..4 chromosomes} x strand patterns x parameters (distance, flank, window, bin, length); "
-                    "distinct = distinct (genome, entries, operation, parameter); all cases non-trivial except the empty interval set" % S)
+                    "distinct = distinct (genome, entries, operation, parameter); all cases non-trivial except the empty interval set; "
+                    "plus genomes of 257..%d contigs (sizes 2..6, '_' names every 64th ignored or kept; %s contigs for GlobalOffset alone) "
+                    "with entries on the contigs around every multiple of 256 / 65536; plus histories of 1..2 steps {sorted, index by "
+                    "permutation / mask / slice, clip, extended_to_size, merged(0), concatenate, windows around 5' ends} on stranded "
+                    "intervals (all intervals of 1..4 chromosomes, not in genome order, also sticking out of the chromosome) followed by "
+                    "get_location / array / sequence extraction on the result"
+                    % (S, 520 if tier == "quick" else 1030, "65600" if tier == "quick" else "65537..131100"))
     col.bounds = {"chromosomes": "1..4", "sizes": "1..%d" % S, "intervals_per_chromosome_exhaustive": "<=2 (<=3 single chromosome)",
                   "merge_distance": [0, 1, 2], "flank": "0..%d" % S, "window_size": "1..%d" % (S + 2), "bin_size": "1..%d" % (S + 1),
                   "fragment_length": "1..%d" % (S + 1), "fasta_line_width": [1, 2, 5],
-                  "filters": ["keep all (Genome.from_dict default)", "ignore_underscores (Genome.from_file default)"]}
+                  "filters": ["keep all (Genome.from_dict default)", "ignore_underscores (Genome.from_file default)"],
+                  "many_contigs": [257, 300, 520] if tier == "quick" else [256, 257, 258, 300, 520, 600, 1030],
+                  "many_contigs_global_offset_only": [65600] if tier == "quick" else [65537, 65600, 70000, 131100],
+                  "many_contigs_sizes": "2..6", "history_steps": "1..2",
+                  "history_step_menu": "sorted, x[perm rev/rot/evenodd], x[mask even/odd/minus-rows], x[1:], clip, extended_to_size(1,2,%d), "
+                                       "merged(0), np.concatenate([x, x]), get_location('start').get_windows(flank 0,1)" % (S + 1)}
     for case in gen_cases(tier):
         case = norm(case)
         col.guarded(lambda: GROUPS[case["k"]](col, case), "checker:" + case["k"], case)
